@@ -6,6 +6,8 @@ import (
 	"fmt"
 	"io"
 	"sync"
+	"sync/atomic"
+	"time"
 
 	"google.golang.org/grpc"
 	"google.golang.org/grpc/codes"
@@ -227,6 +229,8 @@ type memStream[T any, PT interface {
 	breakAfter int
 	sent       int
 	onSend     func(m PT)
+	// fault injection: the transport was cut by a timer while the stream was idle
+	timedOut atomic.Bool
 }
 
 func newMemStream[T any, PT interface {
@@ -299,7 +303,7 @@ func (s *memStream[T, PT]) Trailer() metadata.MD         { return nil }
 func (s *memStream[T, PT]) CloseSend() error             { return nil }
 
 func (s *memStream[T, PT]) finish(err error) {
-	if s.breakAfter >= 0 && s.sent >= s.breakAfter {
+	if s.breakAfter >= 0 && s.sent >= s.breakAfter || s.timedOut.Load() {
 		err = status.Error(codes.Unavailable, "injected transport failure")
 	}
 
@@ -382,6 +386,18 @@ func (c *memClient) Watch(ctx context.Context, in *v1alpha1.WatchRequest, _ ...g
 		s.onSend = func(m *v1alpha1.WatchResponse) { c.watchRec(call, "msg", m, nil) }
 	}
 
+	if c.watchFaults != nil && call >= 0 && call < len(c.watchFaults.plan) && c.watchFaults.plan[call].CutAfter > 0 {
+		// the transport dies after this long, whether or not anything is being sent
+		go func(d time.Duration) {
+			select {
+			case <-time.After(d):
+				s.timedOut.Store(true)
+				s.cancel()
+			case <-s.ctx.Done():
+			}
+		}(time.Duration(c.watchFaults.plan[call].CutAfter))
+	}
+
 	go func() {
 		var err error
 
@@ -394,7 +410,7 @@ func (c *memClient) Watch(ctx context.Context, in *v1alpha1.WatchRequest, _ ...g
 
 			s.finish(err)
 
-			if c.watchRec != nil && s.ctx.Err() == nil || c.watchRec != nil && s.breakAfter >= 0 && s.sent >= s.breakAfter {
+			if c.watchRec != nil && s.ctx.Err() == nil || c.watchRec != nil && s.breakAfter >= 0 && s.sent >= s.breakAfter || c.watchRec != nil && s.timedOut.Load() {
 				c.watchRec(call, "end", nil, s.err)
 			}
 		}()
@@ -415,9 +431,10 @@ type watchFaultPlan struct {
 }
 
 type watchFault struct {
-	BreakAfter int  `json:"break_after"`
-	FailDial   bool `json:"fail_dial,omitempty"`
-	Foreign    bool `json:"foreign,omitempty"` // this call reaches a different server incarnation (fresh state, other cookie)
+	BreakAfter int   `json:"break_after"`
+	FailDial   bool  `json:"fail_dial,omitempty"`
+	CutAfter   int64 `json:"cut_after,omitempty"` // the stream fails this long (ns) after it was opened, even when idle
+	Foreign    bool  `json:"foreign,omitempty"`   // this call reaches a different server incarnation (fresh state, other cookie)
 }
 
 func (p *watchFaultPlan) next() (int, error) {
